@@ -23,13 +23,17 @@ fn sem(t: &Tree, env: &[TV; 3]) -> TV {
     }
 }
 fn atom(i: usize) -> SimpleExpr { Expr::col(Alias::new(["a", "b", "c"][i])).into() }
+// `.not()` may be called before or after the members are added (same group either way): both call orders are explored
+static NOT_FIRST: std::sync::atomic::AtomicBool = std::sync::atomic::AtomicBool::new(false);
 fn build(t: &Tree) -> ConditionExpression {
+    let not_first = NOT_FIRST.load(std::sync::atomic::Ordering::Relaxed);
     match t {
         Tree::Atom(i) => atom(*i).into(),
         Tree::Group { any, neg, kids } => {
             let mut c = if *any { Cond::any() } else { Cond::all() };
+            if *neg && not_first { c = c.not(); }
             for k in kids { c = c.add(build(k)); }
-            if *neg { c = c.not(); }
+            if *neg && !not_first { c = c.not(); }
             c.into()
         }
     }
@@ -110,7 +114,19 @@ fn chains() -> Vec<Tree> {
     v
 }
 
-pub fn search(_obl: &str) -> Vec<Witness> {
+pub fn search(obl: &str) -> Vec<Witness> {
+    let mut found = vec![];
+    for nf in [false, true] {
+        NOT_FIRST.store(nf, std::sync::atomic::Ordering::Relaxed);
+        let mut ws = search_mode(obl);
+        if nf { for w in ws.iter_mut() { w.input = format!("not-first: {}", w.input); } }
+        found.extend(ws);
+        if !found.is_empty() { break; }
+    }
+    NOT_FIRST.store(false, std::sync::atomic::Ordering::Relaxed);
+    found
+}
+fn search_mode(_obl: &str) -> Vec<Witness> {
     std::panic::set_hook(Box::new(|_| {}));
     let mut found = vec![];
     for (i, c) in chains().iter().enumerate() {
@@ -130,7 +146,13 @@ pub fn search(_obl: &str) -> Vec<Witness> {
     found
 }
 pub fn check_one(label: &str) -> Option<Witness> {
-    if label.contains("chain#") { return search("").into_iter().find(|w| w.input == label); }
+    if let Some(rest) = label.strip_prefix("not-first: ") {
+        NOT_FIRST.store(true, std::sync::atomic::Ordering::Relaxed);
+        let r = check_one(rest).map(|mut w| { w.input = label.to_string(); w });
+        NOT_FIRST.store(false, std::sync::atomic::Ordering::Relaxed);
+        return r;
+    }
+    if label.contains("chain#") { return search_mode("").into_iter().find(|w| w.input == label); }
     let ts = trees(2);
     let idx: Vec<usize> = label.trim_start_matches('[').split(']').next()?.split(',').filter_map(|x| x.trim().parse().ok()).collect();
     let h: Vec<Tree> = idx.iter().filter_map(|&i| ts.get(i).cloned()).collect();
